@@ -234,6 +234,16 @@ def coqchk(prop, timeout=1500):
     return rc == 0, out
 
 
+def ensure_coq_deps(vfile):
+    """Compile the RH modules a generated .v file requires (a fresh checkout only builds the dependency
+    cone of the claimed Props files)."""
+    rc, out = run(["coqdep", "-Q", COQ, "RH", vfile], cwd=COQ, timeout=300)
+    deps = sorted({os.path.relpath(w, COQ) for w in out.split() if w.endswith(".vo") and os.path.abspath(w).startswith(COQ + os.sep)})
+    missing = [d for d in deps if not os.path.exists(os.path.join(COQ, d))]
+    if missing:
+        coq_build(missing)
+
+
 def coq_eval_bool(prop, tag, preamble, body_bool, timeout=900):
     """Evaluate a closed boolean Gallina term with vm_compute inside Coq; returns (True/False/None, log)."""
     d = os.path.join(CACHE, "casesv")
@@ -243,6 +253,7 @@ def coq_eval_bool(prop, tag, preamble, body_bool, timeout=900):
         f.write(preamble + "\n")
         f.write("Definition verdict : bool := %s.\n" % body_bool)
         f.write('Goal True. let v := eval vm_compute in verdict in idtac "@@VERDICT" v. Abort.\n')
+    ensure_coq_deps(path)
     rc, out = run(["coqc", "-Q", COQ, "RH", path], cwd=d, timeout=timeout)
     if rc != 0:
         return None, out
